@@ -123,3 +123,9 @@ Qed.
 
 Print Assumptions c12_translated_generated_exec_path.
 Print Assumptions c12_translated_generated_query_sudo_migrate.
+
+(* the proxy methods generated for an INTERFACE (templates of interface/mt.rs) are, as programs, the ones generated for a
+   contract: the two theorems above hold for them word for word *)
+Theorem c12_translated_generated_interface_methods_same : mtmeth_iface_fns = mtmeth_fns.
+Proof. reflexivity. Qed.
+Print Assumptions c12_translated_generated_interface_methods_same.
